@@ -11,6 +11,20 @@ fn main() {
     if args.is_empty() {
         usage();
     }
+    if args[0] == "gen-corpus" {
+        // write generated documents as fuzz seeds: check gen-corpus <dir> <n>
+        let dir = std::path::PathBuf::from(&args[1]);
+        let n: u32 = args.get(2).and_then(|s| s.parse().ok()).unwrap_or(200);
+        std::fs::create_dir_all(&dir).unwrap();
+        for i in 0..n {
+            let tape: Vec<u8> = (0..1500u32).map(|j| ((i.wrapping_mul(2654435761) ^ j.wrapping_mul(40503) ^ (j * j)) >> 3) as u8).collect();
+            let mut t = Tape::new(&tape);
+            let input = rosu_verif::props::c01::gen_input(&mut t);
+            std::fs::write(dir.join(format!("gen-{i:04}.osu")), &input.bytes).unwrap();
+        }
+        std::fs::write(dir.join("empty.osu"), b"").unwrap();
+        return;
+    }
     let id = args[0].to_uppercase();
     let Some((id, run, replay)) = props::registry(&id) else {
         eprintln!("unknown property {id}");
